@@ -122,7 +122,7 @@ def rand_amp(r, cplx):
 
 
 def add_random_terms(r, m, cplx=False, allow=("hop", "level", "coulombS", "coulombP", "szsz", "ss", "magnetization",
-                                               "user2", "user4", "pair", "spinflip_hop", "user6")):
+                                               "user2", "user4", "pair", "spinflip_hop", "user6", "useralt")):
     """append preset calls / user terms (with Hermitian conjugates) to the model"""
     sites = m.sites
     nops = r.range(1, 5)
@@ -200,6 +200,24 @@ def add_random_terms(r, m, cplx=False, allow=("hop", "level", "coulombS", "coulo
                 add_user_term(m, t, fs)
             m.quadratic = False
             m.kinds.add("user6")
+        elif kind == "useralt":
+            # products that are NOT normal ordered and repeat operators with the conjugate in between:
+            # c+_a c_a c+_a c_a (= n_a), c+_a c_b c+_b c_a, n_a n_b n_a (6 operators) -- all non-vanishing
+            t = rand_amp(r, cplx)
+            modes = [(l, o, z) for l, no, ns in sites for o in range(no) for z in range(ns)]
+            r.shuffle(modes)
+            a1 = modes[0]
+            b1 = modes[1] if len(modes) > 1 else modes[0]
+            form = r.below(3)
+            if form == 0:
+                fs = [(1,) + a1, (0,) + a1, (1,) + a1, (0,) + a1]
+            elif form == 1:
+                fs = [(1,) + a1, (0,) + b1, (1,) + b1, (0,) + a1]
+            else:
+                fs = [(1,) + a1, (0,) + a1, (1,) + b1, (0,) + b1, (1,) + a1, (0,) + a1]
+            add_user_term(m, t.real if isinstance(t, complex) else t, fs)
+            m.quadratic = False
+            m.kinds.add("useralt")
         elif kind == "user4":
             t = rand_amp(r, cplx)
             fs = []
@@ -463,6 +481,27 @@ def replay(ctx, rp):
 # standard numeric campaign used by the per-property modules
 # --------------------------------------------------------------------------
 
+def run_corpus(ctx, pid, props):
+    """minimised past failures / targeted regression inputs first (corpus/<property>/*.txt)"""
+    cdir = os.path.join(pmlib.VERIF, "corpus", pid)
+    if not os.path.isdir(cdir):
+        return
+    names = sorted(os.listdir(cdir))
+    cs = []
+    for fn in names:
+        with open(os.path.join(cdir, fn)) as f:
+            cs.append([l.rstrip("\n") for l in f if l.strip() and not l.startswith("#")])
+    # the reproduction of finding F16 (two-particle terms on near-degenerate spectra) is shared by the properties that
+    # read two-particle values: there its C02-tagged oracle line identifies the listed finding
+    f16 = [c for fn, c in zip(names, cs) if fn.startswith("F16")]
+    rest = [c for fn, c in zip(names, cs) if not fn.startswith("F16")]
+    if rest:
+        collect(ctx, run_batch(rest, "real"), props)
+    if f16:
+        collect(ctx, run_batch(f16, "real"), list(props) + (["C02"] if "C02" not in props else []))
+    ctx.count("corpus_cases", len(cs))
+
+
 def numeric_campaign(ctx, props, want, n_quick, n_thorough, max_modes_quick=4, max_modes_thorough=5, trunc=False,
                      symm_modes=("default", "default", "ignore", "custom"), allow=None, betas=(0.5, 1.0, 2.0, 5.0, 10.0, 30.0, 100.0, 400.0),
                      variants_thorough=("real", "complex"), nontrivial=None, extra=None, ngf=6, nchi=2, nsusc=2, near=0, shifts=(5.0, -3.0, 0.625, 40.0), scales=None):
@@ -470,16 +509,7 @@ def numeric_campaign(ctx, props, want, n_quick, n_thorough, max_modes_quick=4, m
     thorough = ctx.tier == "thorough"
     n = n_thorough if thorough else n_quick
     variants = variants_thorough       # both builds in both tiers (the complex build gets a share of the cases)
-    # minimised past failures first (corpus/<property>/*.txt)
-    for pid in props[:1]:
-        cdir = os.path.join(pmlib.VERIF, "corpus", pid)
-        if os.path.isdir(cdir):
-            cs = []
-            for fn in sorted(os.listdir(cdir)):
-                with open(os.path.join(cdir, fn)) as f:
-                    cs.append([l.rstrip("\n") for l in f if l.strip() and not l.startswith("#")])
-            collect(ctx, run_batch(cs, "real"), props)
-            ctx.count("corpus_cases", len(cs))
+    run_corpus(ctx, props[0], props)
     for variant in variants:
         scripts, metas = [], []
         for k in range(n if variant == "real" else max(6, n // 3)):
@@ -506,8 +536,14 @@ def numeric_campaign(ctx, props, want, n_quick, n_thorough, max_modes_quick=4, m
                                     ntriples=(4 if M <= 3 else 2))
             if trunc:
                 eps = r.choice([0.0, 1e-12, 1e-6, 1e-3, 1e-2, 0.2])
+                obs6 = [l for l in s if l.split()[0] in ("gf", "susc", "chi")][:6]
                 s.append("trunc %s" % hx(eps))
-                s += [l for l in s if l.split()[0] in ("gf", "susc", "chi")][:6]
+                s += obs6
+                if r.chance(1, 2):
+                    # truncate the same density matrix again with another tolerance (smaller or larger, also back to 0)
+                    eps2 = r.choice([0.0, 0.0, 1e-12, 1e-6, 1e-3, 0.2])
+                    s.append("trunc %s" % hx(eps2))
+                    s += obs6
             if extra:
                 s = extra(r, m, s)
             if near and k % near == near - 1:
